@@ -145,6 +145,34 @@ pub fn gen_flush_big(rng: &mut Rng) -> Plan {
     Plan { cap, kind: rng.below(3) as u8, regime: 1, scripts, joiner: 1, results: vec![], report_result: 0, failing_flushes: vec![] }
 }
 
+/// C04: the ring is filled, the writer pops part of a drain pass, the producer refills what was popped and then
+/// asks for a flush — the request is collected by a pass whose own pops say nothing about what is queued now.
+/// Returns the plan and the wish list of scheduling choices that produces the phases.
+pub fn gen_flush_refill(rng: &mut Rng) -> (Plan, Vec<usize>) {
+    let cap = *rng.pick(&[33usize, 40, 64, 70]);
+    let fill = cap as u64 + rng.range(0, 8);
+    let refill = rng.range(1, 40);
+    let mut ops = vec![];
+    let mut seq = 0;
+    for _ in 0..fill + refill {
+        ops.push(Op::Append(seq));
+        seq += 1;
+    }
+    ops.push(Op::Flush);
+    for _ in 0..rng.range(0, 4) {
+        ops.push(Op::Append(seq));
+        seq += 1;
+    }
+    ops.push(Op::DropJoin);
+    ops.push(Op::DropH);
+    // an append and a flush request are two grants each (operation, then unpark); the writer needs two or three per entry
+    let mut wish = vec![1usize; (2 * fill) as usize + 1];
+    wish.extend(std::iter::repeat(0).take(rng.range(3, 100) as usize));
+    wish.extend(std::iter::repeat(1).take((2 * refill + 2) as usize));
+    wish.extend(std::iter::repeat(0).take(rng.range(0, 200) as usize));
+    (Plan { cap, kind: rng.below(3) as u8, regime: 1, scripts: vec![ops], joiner: 1, results: vec![], report_result: 0, failing_flushes: vec![] }, wish)
+}
+
 /// C05: more than 32 entries are queued when the join handle is dropped (the shutdown drain re-checks its
 /// deadline every 32 entries), appends and flush requests continue during and after the shutdown.
 pub fn gen_shutdown_big(rng: &mut Rng) -> Plan {
@@ -608,6 +636,16 @@ pub fn run_family_with(ctx: &Ctx, focus: Focus, rule: &str, between: &mut dyn Fn
             let plan = if focus == Focus::Flush && rng.chance(1, 2) { gen_flush_big(&mut rng) } else { gen_plan(&mut rng, focus, true) };
             let bias = *rng.pick(&[0, 0, 1, 4]);
             emit_scheduled(&mut s, &plan, &mut rng, None, bias);
+        }
+        if focus == Focus::Flush {
+            for _ in 0..(if ctx.tier_thorough { 300 } else { 30 }) {
+                if too_many_stuck() {
+                    break;
+                }
+                let (plan, wish) = gen_flush_refill(&mut rng);
+                s.count("sched_flush_refill_plans");
+                emit_scheduled(&mut s, &plan, &mut rng, Some(&wish), LENIENT_PREFIX_MODE);
+            }
         }
         for _ in 0..n_stress / 2 {
             let p = gen_stress(&mut rng, focus, ctx.tier_thorough);
